@@ -16,7 +16,7 @@ RULE = ("NetSpecs with continuous (tie-free) distributions over the full lattice
         "violating the proviso and counts them.  Non-trivial: >= 1 split with a customer in service at the pause and >= 10 records "
         "written after it; distinct by spec digest.")
 ASSUMPTIONS = ["both runs are built from scratch from the JSON spec (Ciw does not copy every stateful object per Simulation)"]
-WALL = {"quick": 50, "thorough": 540}
+WALL = {"quick": 150, "thorough": 540}
 
 ALLOWED = [f for f in common.FULL if f not in ("zero_service", "custom_dists")]
 
@@ -142,5 +142,5 @@ def subchecks(tier):
     w.update({"schedule": 0.4, "capacity": 0.4, "tracker": 0.0})
     prof = S.Profile(ALLOWED, weights=w, numeric="cont", max_nodes=3, max_classes=3, plans=("max_time",), horizon=(3.0, 14.0),
                      budget=800, resumptions=(2, 5), excluded=common.KNOWN_EXCLUSIONS + ("slot_zero_first_arrival", "pause_busy_time_priority"))
-    return [SubCheck("split", execute, strategy=S.netspec(prof), n={"quick": 1600, "thorough": 30000}, kind="metamorphic",
+    return [SubCheck("split", execute, strategy=S.netspec(prof), n={"quick": 4800, "thorough": 30000}, kind="metamorphic",
                      rule="unsplit vs split simulate_until_max_time of the same (spec, seed)")]
